@@ -26,6 +26,10 @@ type Violation struct {
 	InputStr string `json:"input_quoted"`
 	Aux      string `json:"aux,omitempty"`
 	Detail   string `json:"detail"`
+	// Shard names the worker shard that reported the violation; History is set when the case only fails after
+	// the calls the shard made before it (it passes in a fresh process, and fails identically when the shard is re-run).
+	Shard   string `json:"shard,omitempty"`
+	History bool   `json:"history_dependent,omitempty"`
 }
 
 // Key identifies a violation for the known-findings file.
